@@ -445,18 +445,18 @@ func (c *Client) acker() error {
 	for {
 		select {
 		case pkt := <-c.ackQueue:
+			// remove publish from session if pubcomp
+			if pubcomp, ok := pkt.(*packet.Pubcomp); ok {
+				err := c.session.DeletePacket(session.Incoming, pubcomp.ID)
+				if err != nil {
+					return c.die(SessionError, err)
+				}
+			}
+
 			// send packet
 			err := c.send(pkt, true)
 			if err != nil {
 				return c.die(TransportError, err)
-			}
-
-			// remove publish from session if pubcomp
-			if pubcomp, ok := pkt.(*packet.Pubcomp); ok {
-				err = c.session.DeletePacket(session.Incoming, pubcomp.ID)
-				if err != nil {
-					return c.die(SessionError, err)
-				}
 			}
 
 			// put back tokens based on type
